@@ -24,6 +24,7 @@ type Env struct {
 	// preferLocals: inside loop clauses a name denotes the current value of the local variable (parameters are
 	// mutable in Go); old(param) denotes the entry value.
 	preferLocals bool
+	selfT        Term
 	bound        map[string]bool
 }
 
@@ -639,6 +640,24 @@ func (ev *Env) call(e *ECall) Value {
 			ev.errf("isType(iface, \"type\")")
 		}
 		return BoolV(Eq(x.Tag, Num(int64(fx.E.typeIDByName(s.Val)))))
+	case "self":
+		// self(): the identity of the function this contract is applied to (the dynamic callee at dyncall sites)
+		argn(0)
+		if ev.selfT != "" {
+			return IntV(ev.selfT, tInt)
+		}
+		return IntV(fx.funcID(ev.fr.name), tInt)
+	case "fn":
+		// fn("pkg.Recv.Method"): the identity of a repository function (for function values kept in data structures)
+		argn(1)
+		sv, ok := e.Args[0].(*EStr)
+		if !ok {
+			ev.errf("fn(\"name\")")
+		}
+		if fx.E.P.Funcs[sv.Val] == nil {
+			ev.errf("fn: no function %q", sv.Val)
+		}
+		return IntV(fx.funcID(sv.Val), tInt)
 	case "deref":
 		argn(1)
 		p := ev.eval(e.Args[0])
